@@ -731,7 +731,35 @@ def special_jobs(ck, thorough):
                                 exp = {"redecode": [ca, cb], "branches": [ca], "loop": [ca, cb, cb]}[hv] if inr else None
                                 runs.append({"args": [ea.hex(), ix.to_bytes(8, "big").hex(), eb.hex(), sel.hex()], "tag": "in" if inr else "oob", "expects": exp, "idx": ix})
                     jobs.append({"kind": "handle", "base": base, "t": t, "i": i, "handle": hv, "pattern": pattern, "ver": ver, "backend": be, "runs": runs})
-    ck.coverage["special_jobs"] = {"multinamed_programs": nprog, "handle_programs": len(jobs) - nprog}
+    nbefore = len(jobs)
+    # signatures mixing parameter kinds: the decoded container is an ABI argument next to Expr / ScratchVar parameters
+    sigs = [["abi", "expr"], ["expr", "abi"], ["abi", "expr", "abi"], ["abi", "sv"], ["abi", "abi", "expr"], ["sv", "abi", "expr"], ["abi"]]
+    mk = 0
+    for (base, t, i) in [("array", ("darr", ("uint", 64)), None), ("array", ("sarr", ("uint", 16), 3), None), ("array", ("darr", "string"), None),
+                         ("array", ("darr", "bool"), None), ("tuple", ("tuple", ("uint", 64), "string", "bool"), 1), ("tuple", ("tuple", "bool", ("uint", 32)), 1)]:
+        for sig in sigs:
+            for flavor in ("sub", "abiret"):
+                for be in (("frame", "subscratch") if (thorough or mk % 3 == 0) else ("frame",)):
+                    ver = (8 + mk % 3) if be == "frame" else (5 + mk % 6)
+                    mk += 1
+                    nabi = sig.count("abi")
+                    runs = []
+                    for rep in range(2):
+                        if base == "tuple":
+                            va, vb = gen_val(t, rng), gen_val(t, rng)
+                            et = AB.children(t)[i]
+                            cs = [(0, sdk_enc(et, va[i]).hex(), sdk_enc(et, vb[i]).hex())]
+                        else:
+                            e_, sl = C7.array_info(t)
+                            n = sl if sl is not None else rng.choice([2, 3])
+                            va, vb = gen_array_val(t, n, rng), gen_array_val(t, n, rng)
+                            cs = [(x, sdk_enc(e_, elems(va)[x]).hex(), sdk_enc(e_, elems(vb)[x]).hex()) for x in range(n)]
+                        ea, eb = sdk_enc(t, va), sdk_enc(t, vb)
+                        for (ix, ca, cb) in cs:
+                            exp = [ca] if nabi == 1 else ([ca, cb] if flavor == "sub" else [cb, ca])
+                            runs.append({"args": [ea.hex(), ix.to_bytes(8, "big").hex(), eb.hex()], "tag": "in", "expects": exp, "idx": ix})
+                    jobs.append({"kind": "mixedsig", "base": base, "t": t, "i": i, "sig": sig, "flavor": flavor, "ver": ver, "backend": be, "runs": runs})
+    ck.coverage["special_jobs"] = {"multinamed_programs": nprog, "handle_programs": nbefore - nprog, "mixed_signature_programs": len(jobs) - nbefore}
     return jobs
 
 
@@ -927,7 +955,7 @@ def main(argv):
         if reported >= 6:
             break
         fj = f.get("job") or {}
-        sig = (f["kind"], fj.get("kind"), repr(fj.get("t")), fj.get("i"), (fj.get("runs") or [{}])[0].get("tag"), bool(fj.get("user_slots")), fj.get("flow"), fj.get("handle")) if fj else (f["kind"], f["why"][:60])
+        sig = (f["kind"], fj.get("kind"), repr(fj.get("t")), fj.get("i"), (fj.get("runs") or [{}])[0].get("tag"), bool(fj.get("user_slots")), fj.get("flow"), fj.get("handle"), repr(fj.get("sig"))) if fj else (f["kind"], f["why"][:60])
         if sig in seen_why:
             continue
         seen_why.add(sig)
@@ -936,6 +964,8 @@ def main(argv):
             desc = ("NamedTuple classes %s instantiated in order %s, fields read by name %s" % (
                         ["(" + ", ".join("%s: %s" % (n, AB.arc4_str(R.tj(t_))) for n, t_ in zip(cd["names"], cd["ts"])) + ")" for cd in small["classes"]],
                         small["order"], [a[:2] for a in small["access"]])) if small["kind"] == "multinamed" else (
+                    ("%s of %s passed as ABI argument through a %s with parameter kinds %s" % ("position %s" % small["i"] if small["base"] == "tuple" else "run-time-indexed element",
+                        AB.arc4_str(R.tj(small["t"])), "ABIReturnSubroutine" if small["flavor"] == "abiret" else "Subroutine", small["sig"])) if small["kind"] == "mixedsig" else
                     "one element handle of %s (%s) used twice, shape %s, pattern %s" % (AB.arc4_str(R.tj(small["t"])), "position %s" % small["i"] if small["base"] == "tuple" else "run-time index", small["handle"], small["pattern"]))
             ck.violation("ABI access program: %s, v%d, back-end %s: %s" % (desc, small["ver"], small["backend"], f["why"]),
                          {"kind": f["kind"], "job": small, "why": f["why"], "real": f.get("real"), "expect": f.get("expect"), "teal": f.get("teal")})
